@@ -659,7 +659,40 @@ class PathEngine:
         ):
             return [((), NEXT)]
         if isinstance(st, ast.Match):
-            raise AnalysisError(f"match statement not modelled at {fr.fi.loc(st)}")
+            # each case is a branch on a synthetic test; cases are tried in
+            # order; without an irrefutable case the statement may fall through
+            p = self._expr_paths(st.subject, fr)
+            out = []
+            prefix_fail: tuple = ()
+            irrefutable = False
+            for case in st.cases:
+                test = ast.Compare(left=st.subject, ops=[ast.Eq()], comparators=[ast.Constant(value=ast.unparse(case.pattern))])
+                ast.copy_location(test, case.pattern)
+                ast.fix_missing_locations(test)
+                tb = Event("branch", test, fr, {"taken": True, "text": f"match {ast.unparse(st.subject)}: case {ast.unparse(case.pattern)}"[:100]})
+                fb = Event("branch", test, fr, {"taken": False, "text": tb.data["text"]})
+                gp = self._expr_paths(case.guard, fr) if case.guard is not None else [((), NEXT)]
+                body = self._block_paths(case.body, fr)
+                for e, oc in p:
+                    if oc != NEXT:
+                        continue
+                    for ge, goc in gp:
+                        if goc != NEXT:
+                            out.append((e + prefix_fail + (tb,) + ge, goc))
+                            continue
+                        for be, boc in body:
+                            out.append((e + prefix_fail + (tb,) + ge + be, boc))
+                prefix_fail = prefix_fail + (fb,)
+                if case.guard is None and isinstance(case.pattern, ast.MatchAs) and case.pattern.pattern is None:
+                    irrefutable = True
+                    break
+            for e, oc in p:
+                if oc != NEXT:
+                    out.append((e, oc))
+                elif not irrefutable:
+                    out.append((e + prefix_fail, NEXT))
+            self._check_budget(out)
+            return out
         raise AnalysisError(
             f"statement kind {type(st).__name__} not modelled at {fr.fi.loc(st)}"
         )
